@@ -141,8 +141,14 @@ def roundtrip_core(ctx, in_system, save_calc, old_version=False):
     return loaded
 
 
-def h_roundtrip(ctx, skeleton, save_calc, n=2, args=None, edit=None, post_edit=None, old_version=False, custom_sources=False):
+def h_roundtrip(ctx, skeleton, save_calc, n=2, args=None, edit=None, post_edit=None, old_version=False, custom_sources=False,
+                start=None):
     spec = M.SKELETONS[skeleton](n, **(args or {}))
+    if start:
+        # start of the modelled period (year ends, leap days: where calendar-dependent formatting goes wrong)
+        from datetime import datetime
+        for po in spec["patterns"].values():
+            po["starts"]["start"] = datetime.fromisoformat(start)
     # spare jobs (outside the system) must not hang on a server of the system: they would not be exported, yet they are
     # ancestors of that server's load in the original graph (a model with dangling reverse links is outside the claim)
     used = set(gt_sets(spec)["jobs"])
@@ -229,6 +235,9 @@ def plan(tier, seed):
     p.append(("roundtrip", dict(skeleton="T5", save_calc=False, args={"type1": "on-premise", "type2": "serverless", "fixed1": 5})))
     p.append(("roundtrip", dict(skeleton="T1", save_calc=False, old_version=True)))
     p.append(("roundtrip", dict(skeleton="T1e", save_calc=False)))
+    for sk, st, sc in (("T1", "2024-12-30T22:00:00", False), ("T3", "2027-01-01T00:00:00", True), ("T1", "2021-01-03T05:00:00", True),
+                       ("T1", "2024-02-29T23:00:00", False), ("T5", "2025-12-31T23:00:00", False)):
+        p.append(("roundtrip", dict(skeleton=sk, save_calc=sc, start=st)))
     p.append(("roundtrip_builders", dict(kind="video", choice="1080p (1920 x 1080)", save_calc=False, edit_slot=["sjob", "refresh_rate", "1/s"])))
     p.append(("roundtrip_builders", dict(kind="web", choice=["php-symfony", "default"], save_calc=True, edit_slot=["sjob", "data_transferred", "MB"])))
     p.append(("roundtrip_builders", dict(kind="genai", choice=["mistralai", "open-mistral-7b"], save_calc=False, edit_slot=["sjob", "output_token_count", "dimensionless"])))
